@@ -7,7 +7,9 @@ ID = "C16"
 AREA = "c16"
 LEAN_PROPS = "Litep2pVerif.Props.C16"
 THEOREMS = ["terminal_once", "terminal_accounted", "waiting_owned", "occupied_unreachable",
-            "terminal_once_at_quiescence", "put_quorum_sound", "quorum_clamp_rule", "settle_covers_timeouts"]
+            "terminal_once_at_quiescence", "put_quorum_sound", "quorum_clamp_rule", "settle_covers_timeouts",
+            "executor_exactly_one_result", "executor_results_allowed", "every_query_terminates",
+            "manual_validation_never_stores", "inbound_answered_per_kind", "manual_update_never_adds"]
 CONSTS = ["KAD_READ_TIMEOUT_SECS", "KAD_WRITE_TIMEOUT_SECS"]
 _EXE = "src/protocol/libp2p/kademlia/executor.rs"
 CONST_TABLE = [
